@@ -90,6 +90,15 @@ static Cmp make_cmp() {
   return Cmp();
 #endif
 }
+// second operand: for the stateful comparator it is built with the OPPOSITE direction, so that operations exchanging or
+// copying sets are observed to carry the comparator object along
+static Cmp make_cmp2() {
+#if FS_CMP == 2
+  return Cmp(FS_DIR ? 0 : 1, FS_SHIFT);
+#else
+  return Cmp();
+#endif
+}
 
 #if FS_VEC == 0
 typedef uint32_t S;
@@ -158,6 +167,21 @@ struct Ctx {
     vf_assume(vf::g_abad == 0);
     alloc0 = vf::g_alloc_calls; g_cmp = 0;
   }
+  void setup2() {          // as setup(2) but with make_cmp2()
+    m.c = make_cmp2(); m.clear();
+    ps = ::new (static_cast<void *>(buf)) FS(m.c);
+    Seq q;
+    vf::BuildK<VCfg, FS_KIND>::run(vec_of(*ps), q, 2);
+    vf_assume(q.n <= FS_MAX);
+    for (unsigned i = 0; i < VF_MAXM; ++i) {
+      if (i >= q.n) break;
+      vf_assume(q.a[i] < FS_KEYS);
+      if (i > 0) vf_assume(m.before(m.cls(q.a[i - 1]), m.cls(q.a[i])));
+      m.has[m.cls(q.a[i])] = true; m.rep[m.cls(q.a[i])] = q.a[i];
+    }
+    vf_assume(vf::g_abad == 0);
+    alloc0 = vf::g_alloc_calls; g_cmp = 0;
+  }
   // exact: every class keeps the representative the model says (never replaced by an equivalent newcomer)
   void check(bool exactRep = true) {
     const FS &f = *ps;
@@ -172,6 +196,9 @@ struct Ctx {
       if (i > 0) vf_assert(m.before(m.cls(d[i - 1]), m.cls(x)), 3004);               // strictly increasing under the STORED comparator
     }
     vf_assert(f.end() - f.begin() == static_cast<ptrdiff_t>(f.size()), 3001);
+#if FS_CMP == 2
+    { Cmp kc = f.key_comp(); vf_assert(kc.d == m.c.d && kc.s == m.c.s, 3014); }      // the comparator object the set was constructed with / was given
+#endif
     vf_assert(vf::g_abad == 0, 6001);
     Vec &v = vec_of(*ps);
     vf_assert(v.size() <= v.capacity(), 7001);
@@ -406,11 +433,11 @@ OP(extract) {
 // ---- binary operations
 struct Two {
   Ctx a, b;
-  void setup() { a.setup(FS_CLS); b.setup(2); }
+  void setup() { a.setup(FS_CLS); b.setup2(); }
   void finish() { b.ps->~FS(); a.ps->~FS(); vf_assert(vf::g_abad == 0, 6001); vf_assert(vf::blocks_live() == 0, 6004); }
 };
 OP(merge_same) {
-  Two t; t.setup();
+  Two t; t.a.setup(FS_CLS); t.b.setup(2);     // same comparator state on both sides
   t.a.s().merge(t.b.s());
   // elements of b whose class is absent from a move to a; the others stay in b
   for (unsigned i = 0; i < FS_KEYS; ++i) {
@@ -420,12 +447,42 @@ OP(merge_same) {
   vf_reach(1);
   t.finish();
 }
+// merge from a set with a different comparator type: elements of 'o' without an equivalent (under OUR comparator) move over
+struct Cmp2 { bool operator()(K a, K b) const { return a > b; } };
+#if FS_VEC == 2
+typedef amc::FlatSet<K, Cmp2, amc::vec::EmptyAlloc, Vec> FSO;
+#else
+typedef amc::FlatSet<K, Cmp2, A, Vec> FSO;
+#endif
+OP(merge_other) {
+  Ctx c; c.setup(FS_CLS);
+  SetM om = c.m; om.clear();
+  bool ohas[FS_KEYS]; for (unsigned i = 0; i < FS_KEYS; ++i) ohas[i] = false;
+  {
+    FSO o;
+    uint8_t k = nd8(2);
+    for (unsigned i = 0; i < 2; ++i) { if (i >= k) break; K x = ndkey(); o.insert(x); ohas[x] = true; }
+    c.s().merge(o);
+    // expected: visiting o in ITS order (descending key), a key moves iff its class is absent from the destination at that moment
+    for (unsigned j = 0; j < FS_KEYS; ++j) {
+      unsigned x = FS_KEYS - 1 - j;
+      if (ohas[x] && !c.m.has[c.m.cls(static_cast<K>(x))]) { c.m.has[c.m.cls(static_cast<K>(x))] = true; c.m.rep[c.m.cls(static_cast<K>(x))] = static_cast<K>(x); ohas[x] = false; }
+    }
+    c.check();
+    unsigned on = 0; for (unsigned i = 0; i < FS_KEYS; ++i) on += ohas[i];
+    vf_assert(o.size() == on, 3015);
+    for (unsigned i = 0; i < FS_KEYS; ++i) vf_assert(o.contains(static_cast<K>(i)) == ohas[i], 3015);
+  }
+  vf_reach(1);
+  c.finish();
+}
 OP(swap) {
   Two t; t.setup();
   bool which = nd8(1);
   if (which) t.a.s().swap(t.b.s()); else { using std::swap; swap(t.a.s(), t.b.s()); }
   SetM tmp = t.a.m; t.a.m = t.b.m; t.b.m = tmp;
   t.a.check(); t.b.check();
+  { K v = ndkey(); t.a.s().insert(v); t.a.m.insert(v); t.a.check(); }     // later operations order with the comparator that came along
   vf_reach(1);
   t.finish();
 }
@@ -438,11 +495,12 @@ OP(copy_move) {
     Ctx d; d.m = c.m;
     if (form == 0) { w = ::new (static_cast<void *>(buf2)) FS(c.s()); }
     else if (form == 1) { w = ::new (static_cast<void *>(buf2)) FS(std::move(c.s())); c.m.clear(); }
-    else if (form == 2) { w = ::new (static_cast<void *>(buf2)) FS(make_cmp()); *w = c.s(); }
-    else { w = ::new (static_cast<void *>(buf2)) FS(make_cmp()); *w = std::move(c.s()); c.m.clear(); }
+    else if (form == 2) { w = ::new (static_cast<void *>(buf2)) FS(make_cmp2()); *w = c.s(); }
+    else { w = ::new (static_cast<void *>(buf2)) FS(make_cmp2()); *w = std::move(c.s()); c.m.clear(); }
     d.ps = w;
     d.check();
     c.check();
+    { K v = ndkey(); w->insert(v); d.m.insert(v); d.check(); }            // the copy / moved-to set orders with the source's comparator
     w->~FS();
   }
   vf_reach(1);
